@@ -439,7 +439,7 @@ def run_job(job):
 def make_jobs(tier, seed):
     rng = random.Random(150000 + seed)
     jobs = []
-    kinds = ['walk', 'trend', 'constant', 'monotone', 'alternating', 'huge', 'tiny', 'flat', 'spikes']
+    kinds = ['walk', 'trend', 'constant', 'monotone', 'alternating', 'huge', 'tiny', 'flat', 'spikes', 'gappy', 'lattice']
     plan = {'window': (96, 24), 'recursive': (32, 6), 'ma': (24, 16), 'homogeneity': (24, 16)} if tier == 'quick' else \
         {'window': (400, 60), 'recursive': (160, 12), 'ma': (100, 40), 'homogeneity': (100, 40)}
     for group, (njobs, n) in plan.items():
